@@ -34,4 +34,9 @@ def attr {α : Type} : Option α → Except Err α
   | some a => .ok a
   | none => .error .attr
 
+/-- `self.X[idx]` for indices that passed `check_indices` (all `< n`): numpy wraps negative indices and raises `IndexError`
+below `-n` -/
+def xRows (n : Nat) (idx : List Int) : Except Err (List Int) :=
+  if idx.all (fun i => decide (-(n : Int) ≤ i)) then .ok idx else .error .index
+
 end Ska.PyIW
